@@ -916,11 +916,20 @@ func c07R3(c *kit.Ctx, m *cmModel, r *kit.Rule) {
 			oSig.OK("run of `%s`, then `%s` sent on %s on every path", valObj.Name(), keyObj.Name(), m.exitNames())
 		}
 		// (c) per-iteration variables
-		varBad := ""
+		varBad, varUndec := "", ""
 		for _, vo := range []types.Object{keyObj, valObj} {
-			if cmAssignCount(f, vo) != 1 {
+			// a parameter is the call's own variable, set once by the call: it counts as the one assignment
+			n := cmAssignCount(f, vo)
+			if c07ParamOf(f, vo) != nil {
+				n++
+			}
+			if n > 1 {
 				varBad = "`" + vo.Name() + "` is assigned more than once; the goroutine may observe another value than the one stored"
 				break
+			}
+			if n == 0 {
+				varUndec = "no assignment of `" + vo.Name() + "` found in " + f.Name
+				continue
 			}
 			if sto.loop != nil {
 				inBody := sto.loop.Body.Pos() <= vo.Pos() && vo.Pos() < sto.loop.Body.End()
@@ -941,9 +950,14 @@ func c07R3(c *kit.Ctx, m *cmModel, r *kit.Rule) {
 				}
 			}
 		}
-		if varBad != "" {
+		switch {
+		case varBad != "":
 			oVar.Violation("%s", varBad)
-		} else {
+		case varUndec != "":
+			oVar.Undecided("%s", varUndec)
+		case sto.loop == nil:
+			oVar.OK("`%s` and `%s` are variables of one call of %s, assigned once", keyObj.Name(), valObj.Name(), f.Name)
+		default:
 			oVar.OK("`%s` and `%s` are declared in the loop body and assigned once", keyObj.Name(), valObj.Name())
 		}
 	}
@@ -1199,6 +1213,7 @@ func c07R4(c *kit.Ctx, m *cmModel, r *kit.Rule) {
 func c07R5(c *kit.Ctx, m *cmModel, r *kit.Rule) {
 	seenF := map[*kit.Func]bool{}
 	for _, sto := range m.stores {
+		sto = cmLiftStore(c, sto) // the caller's loop when the insertion lives in a helper
 		f := sto.f
 		if seenF[f] {
 			continue
